@@ -180,6 +180,16 @@ def main(argv):
                 with open(os.path.join(OUT, "replay", "%s-harness-error.json" % prop_id), "w") as fh:
                     json.dump({"spec": r["error"]["spec"]}, fh, indent=1, default=str)
 
+    # optional coverage-guided campaign of the property (atheris), in sub-processes
+    fuzz_stats = None
+    if not harness_errors and hasattr(mod, "fuzz_campaign"):
+        try:
+            fuzz_stats, fviol = mod.fuzz_campaign(tier, seed_value)
+            violations.extend(fviol)
+            evaluations += int(fuzz_stats.get("executions", 0))
+        except Exception:
+            fuzz_stats = {"error": traceback.format_exc()[-600:]}
+
     # one report per root-cause bucket: keep the smallest spec
     by_bucket = {}
     for v in violations:
@@ -223,6 +233,8 @@ def main(argv):
         "wall_s": round(wall, 2),
         "violations": len(by_bucket),
     }
+    if fuzz_stats is not None:
+        ev["coverage"]["fuzz"] = fuzz_stats
     if harness_errors:
         ev["coverage"]["harness_errors"] = harness_errors[:3]
     os.makedirs(os.path.join(OUT, "evidence"), exist_ok=True)
